@@ -135,18 +135,20 @@ def chk_malformed(inp):
     from evo.tools import file_interface as fi
     rng = np.random.default_rng(inp["seed"])
     n, kind, defect = inp["n"], inp["kind"], inp["defect"]
-    w = {"tum": 8, "kitti": 12, "euroc": 8}[kind]
+    w = {"tum": 8, "kitti": 12, "euroc": 8 + (9 if inp["seed"] % 3 else 0)}[kind]   # EuRoC files usually carry 17 columns
     M = _numbers(rng, n, w, kind)
     rows = [[repr(float(v)) for v in r] for r in M]
     delim = "," if kind == "euroc" else " "
     r_, c_ = inp["row"] % max(n, 1), inp["col"] % w
+    if kind == "euroc" and w > 8 and inp["seed"] % 2:
+        c_ = 8 + inp["col"] % (w - 8)          # defect in the columns the reader does not use
     if defect == "too_few_columns":
         del rows[r_][c_]
-        if kind == "euroc":
-            rows = [r[:7] for r in rows] if r_ == 0 else rows
+        if kind == "euroc" and n == 1 and len(rows[0]) >= 8:
+            return []            # a single row with >= 8 columns is the EuRoC format itself
     elif defect == "too_many_columns":
-        if kind == "euroc":
-            return []            # more than 8 columns is the EuRoC format itself
+        if kind == "euroc" and n == 1:
+            return []            # more than 8 columns is the EuRoC format itself; one differing row among many is not
         rows[r_].insert(c_, "1.0")
     elif defect == "non_numeric":
         rows[r_][c_] = ["abc", "1.0.0", "--1", "1,5" if delim == " " else "1 5", "nan?"][inp["seed"] % 5]
